@@ -93,6 +93,9 @@ def h_swap_gate(V, sym, nd, lt, axes, fermionic, trans, mfs=None):
         r2 = a.swap_gate(axes=axes).swap_gate(axes=axes)
         V.check('native:gate-is-its-own-inverse', bool(np.array_equal(r2._data, a._data)))
         return
+    if r is a or not cfg.backend.calls:
+        V.check('operand-returned-unchanged-only-if-no-block-is-odd', And(*[sg == 0 for sg in signs]))
+        return
     name, args = cfg.backend.calls[-1]
     V.check('data-from-negate-kernel', name == 'negate_blocks' and r._data.src[0] is a._data)
     rows = args[0]
@@ -144,6 +147,10 @@ def h_swap_gate_charge(V, sym, nd, lt, axes, fermionic, trans, per_axis):
             if sg == 1:
                 want[slice(*sl.slcs[0])] *= -1
         V.check('native:blocks-multiplied-by-the-parity-sign', bool(np.array_equal(want, r._data)))
+        return
+    if r is a or not cfg.backend.calls:
+        # a shortcut that returns the operand itself is only correct when no block changes sign
+        V.check('operand-returned-unchanged-only-if-no-block-is-odd', And(*[sg == 0 for sg in signs]))
         return
     name, args = cfg.backend.calls[-1]
     rows = args[0]
